@@ -29,6 +29,7 @@ type Scope struct {
 	pkg     *types.Package
 	inOld   bool
 	entry   bool // resolve names to parameters only (function entry)
+	oldHdr  *ssa.BasicBlock // loop-body contracts: old() refers to this loop head
 }
 
 func (sc *Scope) with(name string, v Val) *Scope {
@@ -281,12 +282,40 @@ func (e *Enc) evalQuant(sc *Scope, q *CQuant) Val {
 	e.quantDepth++
 	body := e.evalBool(inner, q.Body)
 	e.quantDepth--
+	// witness candidates for an existential: P(c1) || ... || exists k. P(k)  (hints; sound)
+	var candT []T
+	if !q.Forall && len(q.Cands) > 0 && len(q.Vars) == 1 {
+		v := q.Vars[0]
+		vt := e.resolveTypeName(sc, v.Type)
+		for _, cx := range q.Cands {
+			func() {
+				defer func() {
+					if r := recover(); r != nil {
+						if _, ok := r.(unsupported); ok {
+							return // unresolved hint: ignored
+						}
+						panic(r)
+					}
+				}()
+				cv := e.eval(sc, cx, vt)
+				ct := e.toIdx(cv, cv.Typ)
+				if e.quantDepth == 0 {
+					ct = e.define(ct, "wit")
+				}
+				in2 := sc.with(v.Name, Val{Typ: vt, L: []T{ct}})
+				candT = append(candT, And(rangeInv(ct, vt), e.evalBool(in2, q.Body)))
+			}()
+		}
+	}
 	rng := And(ranges...)
 	var r T
 	if q.Forall {
 		r = T{BoolS, fmt.Sprintf("(forall (%s) %s)", strings.Join(decls, " "), Implies(rng, body).E)}
 	} else {
 		r = T{BoolS, fmt.Sprintf("(exists (%s) %s)", strings.Join(decls, " "), And(rng, body).E)}
+		if len(candT) > 0 {
+			r = Or(append(candT, r)...)
+		}
 	}
 	return Val{Typ: types.Typ[types.Bool], L: []T{r}}
 }
@@ -437,7 +466,7 @@ func (e *Enc) resolveName(sc *Scope, name string) (Val, bool) {
 		}
 		return x
 	}
-	if !sc.entry && !(sc.inOld && sc.blk == nil) {
+	scan := func() (Val, bool) {
 		b := sc.blk
 		idx := sc.idx
 		for b != nil {
@@ -462,6 +491,12 @@ func (e *Enc) resolveName(sc *Scope, name string) (Val, bool) {
 			b = b.Idom()
 			idx = 1 << 30
 		}
+		return Val{}, false
+	}
+	if !sc.entry && !(sc.inOld && sc.blk == nil) {
+		if v, ok := scan(); ok {
+			return v, true
+		}
 	}
 	for _, p := range fn.Params {
 		if p.Name() == name {
@@ -483,6 +518,10 @@ func (e *Enc) resolveName(sc *Scope, name string) (Val, bool) {
 		if l.Comment == name {
 			return getv(l, true), true
 		}
+	}
+	if sc.entry && sc.blk != nil && sc.idx >= 0 && !sc.inOld {
+		// function-level clause evaluated at a return statement: locals visible there (hints only)
+		return scan()
 	}
 	return Val{}, false
 }
@@ -603,7 +642,24 @@ func (e *Enc) evalCall(sc *Scope, n *CCall, hint types.Type) Val {
 			if sc.old == nil {
 				panic(unsupported("old() without a pre-state"))
 			}
+			if sc.oldHdr != nil {
+				// loop-body contract: old(x) is x at the loop head of this iteration
+				o.blk, o.idx, o.entry, o.over = sc.oldHdr, 0, false, nil
+				for i, ins := range sc.oldHdr.Instrs {
+					if _, ok := ins.(*ssa.Phi); ok {
+						o.idx = i
+					}
+				}
+			} else {
+				o.entry = true // function contract: old(x) is x at function entry
+				o.over = nil
+			}
 			return e.eval(&o, n.Args[0], hint)
+		case "called":
+			// called(Name): a function or method with this name was called on the current path
+			// since the region (loop iteration / function) was entered
+			nm := n.Args[0].String()
+			return Val{Typ: types.Typ[types.Bool], L: []T{e.heapGet(sc.st, "!called|"+nm, BoolS)}}
 		case "len", "cap":
 			v := e.eval(sc, n.Args[0], nil)
 			switch ut := v.Typ.Underlying().(type) {
